@@ -428,6 +428,8 @@ func (u *Unit) freshVal(st *State, t types.Type, name string, input bool) Val {
 			u.assume(Eq(nb, Ite(isnil, IntLit(0), r.Blk)))
 			// register the region under the slice's own block term as well
 			st.canon[nb.S] = r.Blk.S
+			u.inputArr[nb.S] = r.C
+			u.inputArr[r.Blk.S] = r.C
 			blk = nb
 			u.inputs = append(u.inputs, InputLeaf{Name: name, Kind: "bytes", Len: l, Arr: r.C, Off: off, Cap: cp, Blk: nb, Type: typeString(t)})
 		} else {
